@@ -35,6 +35,8 @@ var c02Blocks = []string{
 	`<div>z%a</div><table><caption><b>%a</b> <i>%b</i></caption><thead><tr><th>h</th><th>h</th></tr></thead><tr><td><b>%c</b> <i>x%a</i></td><td><a href="/q">y%b</a> <span>y%c</span></td></tr></table>`,
 	`<figure><a href="/f"><img src="h.png"><figcaption>%a %b</figcaption></a></figure><figure><a href="/g"><img src="k.png"> <span>%c</span></a></figure>`,
 	`<div>%a <table><caption>%b</caption><thead><tr><th>h</th></tr></thead><tr><td>%c</td></tr></table> z%a</div>`,
+	// inline hiding declarations with !important / trailing tokens (round k)
+	`<p>%a <span style="visibility:hidden !important">%h</span> <i style="visibility: collapse!important;color:red">%h</i> <u style="display:none !important">%h</u> %b</p>`,
 }
 
 type c02Counter struct{}
@@ -54,6 +56,7 @@ var c02Visible = [][]string{
 	{"za", "a", "b", "c", "xa", "yb", "yc"},
 	{"a", "b", "c"},
 	{"a", "b", "c", "za"},
+	{"a", "b"},
 }
 
 func c02Page(n int) (string, []string) {
